@@ -163,6 +163,22 @@ func runC11(c *Ctx) {
 		}
 	}
 
+	// the AMP endpoint reports a failed poll the way the POST endpoint does (C14's
+	// error-mapping obligation on the two client handlers): 200 with an empty
+	// armored document for a poll that POST answers with 500 is not "exactly the
+	// poll response the POST endpoint gives"
+	{
+		var hs []*ssa.Function
+		for _, n := range []string{"ampClientOffers", "clientOffers"} {
+			if f := p.Fn("broker", n); f != nil {
+				hs = append(hs, f)
+			}
+		}
+		c.prefix = "O-2b/C14:"
+		c.checkIPCErrorMapping(hs)
+		c.prefix = ""
+	}
+
 	// ---------- O-3 / O-4 ----------
 	for _, w := range []struct{ typ string }{{"httpRendezvous"}, {"ampCacheRendezvous"}} {
 		fn := p.Fn("client/lib", "(*"+w.typ+").Exchange")
@@ -233,6 +249,15 @@ func (c *Ctx) checkFronting(fn *ssa.Function, typ string) {
 	hs, us := hd.In.(*ssa.Store), ud.In.(*ssa.Store)
 	_, hf, okh := fieldLoad(hs.Val)
 	okHostVal := okh && hf.Name() == "Host" && hf.Pkg() != nil && hf.Pkg().Path() == "net/url"
+	if okHostVal {
+		// ... of this very request's URL (req.URL.Host), not of some other URL the
+		// rendezvous knows (with an AMP cache in between, req.URL is the cache URL and
+		// the broker's own host would make the front route to a host that does not exist)
+		hb, _, _ := fieldLoad(hs.Val)
+		ub, uf2, oku2 := fieldLoad(hb)
+		reqOfStore, _, _ := fieldOfAddr(hs.Addr)
+		okHostVal = oku2 && uf2.Name() == "URL" && uf2.Pkg() != nil && uf2.Pkg().Path() == "net/http" && xstrip(ub) == xstrip(reqOfStore)
+	}
 	okURLVal := isFront(us.Val, ud.Chain)
 	c.check(okHostVal && okURLVal, rule, key+" sets Host header = broker host and URL host = front", p.instrPos(hs), "", "the values stored into req.Host / req.URL.Host are not (the broker's host, the front)")
 	okOrder := false
